@@ -1,6 +1,7 @@
 package checks
 
 import (
+	"fmt"
 	"math"
 	"testing"
 
@@ -8,15 +9,19 @@ import (
 
 	"verif/internal/harness"
 	"verif/internal/xast"
+	"verif/internal/xdoc"
 	"verif/internal/xgen"
 	"verif/internal/xref"
 )
 
 // C08 — arithmetic and numeric functions follow XPath 1.0 / IEEE 754.
 
-const ruleC08 = "rapid: document with numeric (and a few non-numeric) values x context x arithmetic tree of depth <= 4 over number literals (0, 7, 007, 1., .5, 12.50, 17-digit literals), unary minus (incl. --x), + - * div, mod on non-negative integer operands with a non-zero literal divisor, floor, ceiling, number(literal | flat path | expression), count(flat), sum(flat path whose nodes are all numeric), string-length(flat); and string(e) of the same trees when the reference value is finite and |v| < 10^6. Oracle: Evaluate = reference evaluator, float64 compared exactly (NaN = NaN), strings equal. Non-trivial: tree depth >= 2 with a document-derived operand or a NaN/infinite value; distinct by (document, context, expression)."
+const ruleC08 = "rapid: document with numeric (and a few non-numeric) values x context x arithmetic tree of depth <= 4 over number literals (0, 7, 007, 1., .5, 12.50, 17-digit literals), unary minus (incl. --x), + - * div, mod on non-negative integer operands with a non-zero literal divisor, floor, ceiling, number(literal | flat path | expression), count(flat), sum(flat path whose nodes are all numeric), string-length(flat); and string(e) of the same trees when the reference value is finite and |v| < 10^6. enum (exhaustive grid): string(k div 10^e), its negative, the same value as a literal and as number(' literal\\n') for k = 1..999, e = 0..9. Oracle: Evaluate = reference evaluator, float64 compared exactly (NaN = NaN), strings equal. Non-trivial: tree depth >= 2 with a document-derived operand or a NaN/infinite value; distinct by (document, context, expression)."
 
-var uC08 = harness.NewUnit("C08", "rapid-arithmetic", ruleC08)
+var (
+	uC08     = harness.NewUnit("C08", "rapid-arithmetic", ruleC08)
+	uC08Grid = harness.NewUnit("C08", "enum-number-format-grid", ruleC08)
+)
 
 func init() {
 	harness.RegisterOracle("C08/arith", func(l *harness.Live) *harness.Failure {
@@ -109,4 +114,47 @@ func TestC08Rapid(t *testing.T) {
 			return l.Sample("value", want.String())
 		})
 	})
+}
+
+// TestC08FormatGrid sweeps string(k div 10^e) and its negative for k = 1..999,
+// e = 0..9 and the literal spellings of the same values (exhaustive for this
+// grid): plain decimal notation for every finite number below one million.
+func TestC08FormatGrid(t *testing.T) {
+	doc := xdoc.MustParse("<a/>")
+	shard, shards := harness.Shard()
+	var total int64
+	idx := 0
+	pow := []string{"1", "10", "100", "1000", "10000", "100000", "1000000", "10000000", "100000000", "1000000000"}
+	run := func(e xast.Expr, label string) {
+		l := &harness.Live{Property: "C08", Check: "C08/arith", Doc: doc, Ctx: doc.Root, AST: e, Expr: xast.Render(e)}
+		want, f := scalarOracle(l)
+		if f != nil {
+			harness.Report(t, uC08Grid, l, f)
+		}
+		total++
+		uC08Grid.Case(harness.Hash64(l.Expr), true, []string{label}, func() interface{} { return l.Sample("value", want.String()) })
+	}
+	for k := 1; k <= 999; k++ {
+		for e := 0; e <= 9; e++ {
+			idx++
+			if idx%shards != shard {
+				continue
+			}
+			var q xast.Expr = &xast.Bin{Op: "div", L: &xast.Num{Lit: fmt.Sprint(k)}, R: &xast.Num{Lit: pow[e]}}
+			run(&xast.Call{Name: "string", Args: []xast.Expr{q}}, fmt.Sprintf("div:e=%d", e))
+			run(&xast.Call{Name: "string", Args: []xast.Expr{&xast.Neg{X: q}}}, fmt.Sprintf("neg-div:e=%d", e))
+			if k%7 == 0 {
+				// the same value written as a literal with leading zeros / fraction
+				lit := fmt.Sprintf("%d", k)
+				if e > 0 {
+					s := fmt.Sprintf("%0*d", e+1, k)
+					lit = s[:len(s)-e] + "." + s[len(s)-e:]
+				}
+				run(&xast.Call{Name: "string", Args: []xast.Expr{&xast.Num{Lit: lit}}}, "literal")
+				run(&xast.Call{Name: "string", Args: []xast.Expr{&xast.Call{Name: "number", Args: []xast.Expr{&xast.Str{S: " " + lit + "\n"}}}}}, "number(string)")
+			}
+		}
+	}
+	uC08Grid.SetExhaustive(total)
+	uC08Grid.Done(total)
 }
